@@ -33,6 +33,8 @@ func (t *TableDef) CreateSQL() string {
 		s := fmt.Sprintf("c%d ", i+1)
 		if c.Ty == "i" {
 			s += "INT"
+		} else if c.Ty == "d" {
+			s += "DECIMAL(6,2)"
 		} else if c.Coll == "ci" {
 			s += "VARCHAR(16) COLLATE utf8mb4_0900_ai_ci"
 		} else {
@@ -104,6 +106,7 @@ type Gen struct {
 	// feature switches
 	NoSubq, NoStrings, NoAgg, NoSetOp, NoOuter bool
 	AllowMod   bool // generate the % operator
+	Decimals   bool // generate DECIMAL(6,2) columns (compared, grouped, ordered, IN-listed; no arithmetic)
 	IndexAll   bool // every table gets single-column indexes on its first two columns (join-algorithm coverage)
 	MaxJoin    int  // maximum number of table instances in one FROM clause (default 2)
 	CIFuncs    bool // allow string functions over _ci columns
@@ -139,8 +142,34 @@ func (g *Gen) val(c ColInfo, nullP float64) Value {
 	if c.Ty == "i" {
 		return g.IntVal(nullP)
 	}
+	if c.Ty == "d" {
+		return g.DecVal(nullP)
+	}
 	return g.StrVal(nullP)
 }
+
+// decPool: values whose printed forms end in zeros / differ only in trailing digits, on purpose.
+var decPool = []int{0, 100, 150, -225, 1000, 2000, 10000, 50, 200, 1050, -100}
+
+func (g *Gen) DecVal(nullP float64) Value {
+	if g.chance(nullP) {
+		return Null()
+	}
+	return Dec(decPool[g.pick(len(decPool))])
+}
+
+// DecExpr: a DECIMAL column or a decimal / integer literal (no arithmetic: exactness rules are C25's).
+func (g *Gen) DecExpr(s Scopes) *Expr {
+	if c := g.colOf(s, "d", ""); c != nil && g.chance(0.7) {
+		return c
+	}
+	if g.chance(0.3) {
+		return Lit(g.IntVal(0.05))
+	}
+	return Lit(g.DecVal(0.05))
+}
+
+func (s Scopes) has(ty string) bool { return len(s.cols(ty, "")) > 0 }
 
 // Schema generates n tables with data.
 func (g *Gen) Schema(n int) []*TableDef {
@@ -155,6 +184,8 @@ func (g *Gen) Schema(n int) []*TableDef {
 				if g.chance(0.4) {
 					ci.Coll = "ci"
 				}
+			} else if g.Decimals && c > 0 && g.chance(0.3) {
+				ci = ColInfo{Ty: "d", Coll: "none"}
 			}
 			t.Cols = append(t.Cols, ci)
 		}
@@ -355,6 +386,18 @@ func (g *Gen) BoolExpr(s Scopes, depth int) *Expr {
 	case 8:
 		// IN list
 		n := 1 + g.pick(3)
+		if g.Decimals && s.has("d") && g.chance(0.35) {
+			// static decimal / integer literal lists take the hash-IN path
+			var l []*Expr
+			for i := 0; i < n+1; i++ {
+				if g.chance(0.3) {
+					l = append(l, Lit(g.IntVal(0.1)))
+				} else {
+					l = append(l, Lit(g.DecVal(0.1)))
+				}
+			}
+			return In(g.colOf(s, "d", ""), g.chance(0.4), l...)
+		}
 		if !g.NoStrings && g.chance(0.3) {
 			coll := g.anyColl()
 			left := g.StrExpr(s, depth-1, coll)
@@ -378,6 +421,9 @@ func (g *Gen) BoolExpr(s Scopes, depth int) *Expr {
 		}
 		return In(g.IntExpr(s, depth-1), g.chance(0.4), l...)
 	case 9:
+		if g.Decimals && s.has("d") && g.chance(0.3) {
+			return Op([]string{"between", "notbetween"}[g.pick(2)], g.DecExpr(s), g.DecExpr(s), g.DecExpr(s))
+		}
 		op := []string{"between", "notbetween"}[g.pick(2)]
 		return Op(op, g.IntExpr(s, depth-1), g.IntExpr(s, depth-1), g.IntExpr(s, depth-1))
 	default:
@@ -390,6 +436,9 @@ func (g *Gen) BoolExpr(s Scopes, depth int) *Expr {
 
 func (g *Gen) cmp(s Scopes, depth int) *Expr {
 	op := cmpOps[g.pick(len(cmpOps))]
+	if g.Decimals && s.has("d") && g.chance(0.3) {
+		return Op(op, g.DecExpr(s), g.DecExpr(s))
+	}
 	if !g.NoStrings && g.chance(0.3) {
 		coll := g.anyColl()
 		if op == "nseq" && coll == "ci" {
@@ -648,6 +697,11 @@ func (g *Gen) aggExpr(s Scopes, depth int) (*Expr, ColInfo) {
 		return Agg("avg", g.IntExpr(s[:1], 0), false), ColInfo{Ty: "q", Coll: "none"}
 	case 4, 5:
 		f := []string{"min", "max"}[g.pick(2)]
+		if g.Decimals && g.chance(0.3) {
+			if c := g.colOf(s[:1], "d", ""); c != nil {
+				return Agg(f, c, false), ColInfo{Ty: "d", Coll: "none"}
+			}
+		}
 		if !g.NoStrings && g.chance(0.3) {
 			if c := g.colOf(s[:1], "s", ""); c != nil {
 				return Agg(f, c, false), ColInfo{Ty: "s", Coll: c.C}
@@ -737,6 +791,8 @@ func (g *Gen) setOp(depth int) selOut {
 			rproj = append(rproj, Col(0, j+1, c.Coll))
 		} else if c.Ty == "i" {
 			rproj = append(rproj, Lit(g.IntVal(0.2)))
+		} else if c.Ty == "d" {
+			rproj = append(rproj, Lit(g.DecVal(0.2)))
 		} else {
 			rproj = append(rproj, Lit(g.StrVal(0.2)))
 		}
